@@ -5,7 +5,7 @@ from ..acceptors_r2 import acc_C16, make_running_observer
 from ..explore_r import Scenario, S, mkcfg, bl, sl, bm, sm
 from ..scenarios_r import CL
 
-WIT = ["halt_after_multi_fill_round", "halt_triggered", "second_halt_of_a_rule", "resumed_after_halt", "halted_step", "halt_running_into_session_end",
+WIT = ["time0_price_moved_by_trades_in_step0", "halt_after_multi_fill_round", "halt_triggered", "second_halt_of_a_rule", "resumed_after_halt", "halted_step", "halt_running_into_session_end",
        "order_or_cancel_accepted_during_halt", "fill_below_halt_line", "non_target_market_running", "complete_runs"]
 RULE = ("session shapes x halt lengths x target sets (one or two markets, one or two rules) around base programs that walk the "
         "price across the first and second halt line, with all deviations of schedules and agent programs within the bound "
@@ -87,6 +87,18 @@ def scenarios(tier):
             name = "halt:sweep-L%d-%dm" % (L, nm)
             sc[name] = Scenario(name, mkcfg([S(0, 6 + L, True, True, maxNormalOrders=2, events=["H"])], markets=markets, agents=ags, events=ev),
                                 observer=make_running_observer(), meta=dict(halt_rules=[dict(targets=[m["name"] for m in markets], r=0.25, L=L)]))
+    # execution on from step 0 with two matching rounds at different prices during step 0: the time-0 price is still
+    # live then, so the reference the rule must use is the one the system reports afterwards (110, not 100)
+    for L in (1, 2):
+        mn = menu(1) + [[bl(0, 100), sl(0, 110)], [sl(0, 100), bl(0, 110)], [bl(0, 135)], [sl(0, 135)]]
+        k = len(mn)
+        pa = [k - 4, 1, k - 2, 0, 3, 0, 0]
+        pb = [k - 3, 2, k - 1, 0, 4, 0, 0]
+        ags = [dict(name="A0", menu=mn, program=pa, markets=["M0"]), dict(name="A1", menu=mn, program=pb, markets=["M0"])]
+        ev = {"H": {"class": "TradingHaltRule", "targetMarkets": ["M0"], "triggerChangeRate": 0.25, "haltingTimeLength": L}}
+        name = "halt:trades_in_step0-L%d" % L
+        sc[name] = Scenario(name, mkcfg([S(0, 7, True, True, maxNormalOrders=2, events=["H"])], markets=[dict(name="M0")], agents=ags, events=ev),
+                            observer=make_running_observer(), meta=dict(halt_rules=[dict(targets=["M0"], r=0.25, L=L)]))
     return sc
 
 
